@@ -28,6 +28,10 @@ if _plan_path:
         _disk.put(_p, base64.b64decode(_b))
     for _p, _faults in _plan.get("plans", {}).items():
         _disk.plans[_p] = _seams.WritePlan.from_faults(_faults)
+    for _d in _plan.get("missing", []):
+        _disk.declare_missing(_d)
+    for _l, _t in _plan.get("file_symlinks", {}).items():
+        _disk.symlink(_l, _t)
 
     import iodata.api
     import iodata.utils
@@ -44,11 +48,12 @@ if _plan_path:
             "cwd": _disk.cwd,
             "resolved": {name: _disk.resolve(name) for name in _plan.get("report", [])},
             "files": {p: base64.b64encode(bytes(b)).decode() for p, b in _disk.files.items()},
+            "symlinks": dict(_disk.symlinks), "made_dirs": sorted(_disk.made_dirs),
             "open_handles": len(_disk.open_handles()),
             "events": [[e["e"], e["p"]] for e in _disk.events if e["e"] in ("open_w", "open_r")],
             "fired": {p: pl.fired for p, pl in _disk.plans.items()},
         }
-        with open(_plan["result"], "w") as fh:
+        with _inst._os_real["open"](_plan["result"], "w") as fh:  # (the real file system, not the simulated one)
             json.dump(out, fh)
 
     atexit.register(_dump_result)
